@@ -13,6 +13,7 @@ from vf import sym2z3, zdiff
 from vf.common import Scenario, as_term
 from vf.flow import FlowModel, StubSPI
 
+VALS = [0.5, 1.5, 2.0, 0.25, 3.0, 0.75, 1.25, 4.0]
 LEVEL = "translation_validation"
 META = {
     "bounds": "surrogate-free model shapes of the C01 grammar plus library-law models (mass action, Michaelis-Menten, reversible, moiety), every "
@@ -112,7 +113,12 @@ class Sym(Scenario):
     def run(self, ctx):
         from mxlpy import to_symbolic_model
 
-        m = M.build(self.spec, ctx)
+        # conversion is a compile step: it runs on concrete declared values (sympy.Float of a number); afterwards every
+        # plain parameter is re-declared as a symbol so that the comparison holds "at every parameter setting"
+        names_p = [n for n, ia in self.spec.get("params", []) if ia is None]
+        names_v = [n for n, ia in self.spec.get("vars", []) if ia is None]
+        vals = {n: VALS[i % len(VALS)] for i, n in enumerate(names_p + names_v)}
+        m = M.build(self.spec, ctx, vals=vals)
         decl = E.Decl(m)
         names = list(decl.variables)
         state = {v: ctx.real(f"s_{v}") for v in names}
@@ -130,6 +136,9 @@ class Sym(Scenario):
                  info=f"{list(sm.variables)} / {len(sm.eqs)} eqs vs {names}")
         if list(sm.variables) != names or len(sm.eqs) != len(names):
             return
+        for pn in names_p:
+            m.update_parameter(pn, ctx.real(f"p_{pn}"))
+        decl = E.Decl(m)
         env = dict(state)
         e0 = E.init_env(decl)
         for pn in decl.parameters:
@@ -171,11 +180,12 @@ class JacCallback(Scenario):
     modules = ["mxlpy.model", "mxlpy.simulator", "mxlpy.integrators.int_scipy", "mxlpy.simulation"]
     float_shim = ["mxlpy.model", "mxlpy.simulator"]
 
-    def __init__(self, spec, method, ops):
+    def __init__(self, spec, method, ops, y0_order=None):
         self.spec = spec
         self.method = method
         self.ops = tuple(ops)
-        self.key = f"C12/jac/{spec['name']}/{method}/{'-'.join(ops) or 'fresh'}"
+        self.y0_order = y0_order  # None: default start values; "reversed": an explicit y0 dict in reversed key order
+        self.key = f"C12/jac/{spec['name']}/{method}/{'-'.join(ops) or 'fresh'}{'' if y0_order is None else '/y0-' + y0_order}"
 
     def run(self, ctx):
         import mxlpy.integrators.int_scipy as isc
@@ -199,8 +209,11 @@ class JacCallback(Scenario):
             to_symbolic_model(m)
         except Exception:  # noqa: BLE001
             convertible = False
+        y0 = None
+        if self.y0_order is not None:
+            y0 = {v: ctx.real(f"y0_{v}") for v in (names[::-1] if self.y0_order == "reversed" else names)}
         with ctx.impl("Simulator(use_jacobian=True)"):
-            sim = Simulator(m, use_jacobian=True, integrator=partial(Scipy, method=self.method))
+            sim = Simulator(m, y0=y0, use_jacobian=True, integrator=partial(Scipy, method=self.method))
         t_end = 1.0
         for i, op in enumerate(self.ops):
             with ctx.impl(f"op{i} {op}"):
@@ -266,7 +279,8 @@ def scenarios(tier, seed):
     lib = library_models()
     scs += [Sym(s_) for s_ in (lib if tier != "quick" else [l_ for l_ in lib if l_["name"].startswith("libfn/") or l_["name"].endswith("/rev")][::2])]
     if tier != "quick":
-        scs += [Sym(g) for g in M.grammar_shapes(with_surrogates=False)]
+        # parameter-dependent coefficients are an open finding (probed by named_coef / static_derived_coef)
+        scs += [Sym(g) for g in M.grammar_shapes(with_surrogates=False) if "/named/" not in g["name"] and "/param/" not in g["name"]]
     jac_specs = [s for s in base if s["name"] in ("chain2", "mm_moiety", "lib_mm_rev", "untouched", "time_dep", "frac_coef")]
     for s in jac_specs:
         for method in ("LSODA", "BDF", "Radau"):
@@ -274,4 +288,6 @@ def scenarios(tier, seed):
                 if tier == "quick" and method != "Radau" and ops not in ((), ("UP",)):
                     continue
                 scs.append(JacCallback(s, method, ops))
+        scs.append(JacCallback(s, "Radau", (), y0_order="reversed"))
+        scs.append(JacCallback(s, "BDF", ("UP",), y0_order="reversed"))
     return scs
